@@ -553,6 +553,13 @@ TRANSFORMS = {"unparse": lambda t: t, "locals": t_locals, "negif": t_negif, "ret
               "lit2dict": t_lit2dict, "compr2loop": t_compr2loop, "attrcache": t_attrcache}
 
 
+COMBOS = {
+    "combo1": ["negif", "retvar", "explain", "locals", "nop", "kwswap"],
+    "combo2": ["ternary2if", "splitand", "isnot", "assert2if", "compr2loop", "dict2lit", "annot"],
+    "combo3": ["attrcache", "inlinetmp", "lit2dict", "msgtext", "methodorder", "docstrip", "locals"],
+}
+
+
 def overlay_for(name, only=None):
     ov = {}
     for rel in _files():
@@ -560,6 +567,16 @@ def overlay_for(name, only=None):
             continue
         src = open(os.path.join(REPO, rel), encoding="utf-8").read()
         tree = ast.parse(src)
+        if name in COMBOS:
+            for step in COMBOS[name]:
+                tree = TRANSFORMS[step](tree)
+                ast.fix_missing_locations(tree)
+                tree = ast.parse(ast.unparse(tree))
+            ast.fix_missing_locations(tree)
+            out = ast.unparse(tree) + "\n"
+            compile(out, rel, "exec")
+            ov[rel] = out
+            continue
         tree = TRANSFORMS[name](tree)
         ast.fix_missing_locations(tree)
         out = ast.unparse(tree) + "\n"
@@ -605,6 +622,9 @@ def main():
             props = sys.argv[i + 1].split(",")
             args = [x for x in args if x != sys.argv[i + 1]]
     names = args or list(TRANSFORMS)
+    for n_ in names:
+        if n_ not in TRANSFORMS and n_ not in COMBOS:
+            raise SystemExit(f"unknown transformation {n_}")
     jobs = [(n, p, only) for n in names for p in props]
     bad = 0
     with ProcessPoolExecutor(max_workers=16) as ex:
